@@ -788,7 +788,7 @@ class DerivedDataType(DataType):
 
 class _ArrayReprMeta(_DataTypeMeta):
     def __repr__(cls: "ArrayType"):
-        return f"{cls.element_type}[{cls.length!r}]"
+        return f"{cls.element_type}[{_value_repr(cls.length)}]"
 
     __str__ = __repr__
 
@@ -909,7 +909,7 @@ def Array(
                     raise
                 else:
                     raise DataError(
-                        f"Error unpacking into {cls.element_type}[{_length}] from {_repr(buffer)}"
+                        f"Error unpacking into {cls.element_type}[{_value_repr(_length)}] from {_repr(buffer)}"
                     ) from err
 
         def __repr__(self) -> str:
